@@ -619,6 +619,17 @@ Qed.
 Theorem DPR_underflow_rejected : memory_is_dpr 2146435121 2144337920 3145728 0 4026531840 = fail.
 Proof. vm_compute. reflexivity. Qed.
 
+(** 2 MiB + heap + SINIT size = exactly 2^32 (a 32-bit sum would be 0): rejected; one
+    register value lower the sum is 2^32 - 1 and still rejected; the same layout with an
+    ordinary SINIT size passes *)
+Theorem DPR_sum_at_4G_rejected :
+  memory_is_dpr 2066743361 2066874368 917504 0 4291952640 = fail /\
+  memory_is_dpr 2066743361 2066874368 917504 0 4291952639 = fail /\
+  memory_is_dpr 2066743361 2066874368 917504 0 4294967295 = fail /\
+  memory_is_dpr 2066743361 2066874368 917504 0 131072 = pass.
+Proof. vm_compute. repeat split; reflexivity. Qed.
+
+
 (** ValidSMRR: what a pass guarantees (read off the register values) *)
 Theorem ValidSMRR_failclosed : forall pbm pmm tb tl,
   valid_smrr pbm pmm tb tl = pass ->
